@@ -38,7 +38,19 @@ type stopRun struct{}
 type frame struct {
 	fn    *ssa.Function
 	env   map[ssa.Value]Value
+	base  map[ssa.Value]Value // read-only values defined before a tabulated loop (naf.go)
 	depth int
+}
+
+func (fr *frame) get(v ssa.Value) (Value, bool) {
+	if x, ok := fr.env[v]; ok {
+		return x, true
+	}
+	if fr.base != nil {
+		x, ok := fr.base[v]
+		return x, ok
+	}
+	return nil, false
 }
 
 // Outcome is the result of interpreting an entry point.
@@ -134,7 +146,7 @@ func (w *World) val(fr *frame, v ssa.Value) Value {
 	case *ssa.Builtin:
 		return &Opaque{Why: "builtin"}
 	}
-	x, ok := fr.env[v]
+	x, ok := fr.get(v)
 	if !ok || x == nil {
 		panic(undecided{nil, fmt.Sprintf("value %s of %s has no abstract value", v.Name(), load.FuncName(fr.fn))})
 	}
